@@ -16,7 +16,7 @@ let tag_of = function "" -> TNone | "'" -> TSq | "\"" -> TDq | "`" -> TBq | "\\"
 let tag_str = function TNone -> "" | TSq -> "'" | TDq -> "\"" | TBq -> "`" | TBs -> "\\"
 
 (* names whose bindings are printed (the rest of the real environment is not modelled) *)
-let tracked = ["A"; "B"; "C"; "D"; "HOME"; "IFS"; "PWD"; "REPLY"]
+let tracked = ["A"; "B"; "AB"; "A_1"; "HOME"; "IFS"; "PWD"; "REPLY"]
 
 let sorted_map (m : (str * str) list) : string =
   let l = List.map (fun (k, v) -> (bytes_of_str k, v)) m in
